@@ -2,6 +2,7 @@ import Yv.Model.Core
 import Yv.Model.PackX
 import Yv.Cert.Auto
 import Yv.Model.Drive
+import Yv.Model.XDrv
 /-! `ymodel`: line-protocol driver. Reads the dump the Go harness wrote for each case (grammar as
     the implementation built it, plus the implementation's automaton, lookaheads, table, packed
     arrays) and prints, per case,
@@ -127,13 +128,78 @@ def process (out : IO.FS.Stream) (a : CaseAcc) : IO Unit := do
     | .outOfFuel => out.putStrLn s!"R {i} fuel 0"
   out.putStrLn "ENDCASE"
 
+structure XAcc where
+  id : String := ""
+  active : Bool := false
+  errC : Int := 0
+  accC : Int := 0
+  nT : Nat := 0
+  rows : Array (Array Int) := #[]
+  isPacked : Bool := false
+  act : Array Int := #[]
+  off : Array Int := #[]
+  chk : Array Int := #[]
+  adef : Array Int := #[]
+  gdef : Array Int := #[]
+  rules : Array (Option XDrv.RuleD) := #[]
+  tok : Array Nat := #[]
+  startTag : Nat := 0
+  stepLimit : Nat := 3000
+  inputs : Array (Array Nat) := #[]
+  wantTrace : Bool := false
+
+def parseTerm (s : String) : Int × Nat :=
+  match s.splitOn ":" with
+  | [c, t] => (c.toInt!, t.toNat!)
+  | _ => (0, 0)
+
+def setRule (rs : Array (Option XDrv.RuleD)) (i : Nat) (r : XDrv.RuleD) : Array (Option XDrv.RuleD) :=
+  let rs := if rs.size ≤ i then rs ++ Array.replicate (i + 1 - rs.size) none else rs
+  rs.set! i (some r)
+
+def evStr : XDrv.Ev → String
+  | .shift s q => s!"S:{s}:{q}"
+  | .reduce la r q => s!"R:{r}:{q}:{la}"
+
+def processX (out : IO.FS.Stream) (x : XAcc) : IO Unit := do
+  out.putStrLn s!"XCASE {x.id}"
+  let look : XDrv.Look := if x.isPacked then .packed x.act x.off x.chk x.adef x.gdef x.nT else .dense x.rows
+  let t : XDrv.Tabs := { look := look, errC := x.errC, accC := x.accC, rules := x.rules, tok := x.tok,
+                         startTag := x.startTag, stepLimit := x.stepLimit }
+  for i in [0:x.inputs.size] do
+    let o := XDrv.parse t x.inputs[i]!
+    let v := match o.v with
+      | .accept => "accept" | .reject => "reject" | .loop => "loop" | .crash w => "crash:" ++ w.replace " " "_"
+    out.putStrLn (s!"XR {i} {v} {o.req} {o.val} " ++ nats o.log)
+    if x.wantTrace then out.putStrLn (s!"XT {i} " ++ " ".intercalate (o.trace.map evStr))
+  out.putStrLn "XEND"
+
 def unq (s : String) : String := s
 
-partial def loop (inp out : IO.FS.Stream) (a : CaseAcc) : IO Unit := do
+partial def loop (inp out : IO.FS.Stream) (a : CaseAcc) (x : XAcc := {}) : IO Unit := do
   let line ← inp.getLine
   if line.isEmpty then return ()
   let ws := (line.trimAscii.toString.splitOn " ").filter (· ≠ "")
+  if x.active then
+    match ws with
+    | "XCONST" :: e :: c :: t :: lim :: tr :: _ =>
+      loop inp out a { x with errC := e.toInt!, accC := c.toInt!, nT := t.toNat!, stepLimit := lim.toNat!, wantTrace := tr == "1" }
+    | "XROW" :: cells => loop inp out a { x with rows := x.rows.push (cells.map String.toInt!).toArray }
+    | "XACT" :: xs => loop inp out a { x with isPacked := true, act := (xs.map String.toInt!).toArray }
+    | "XOFF" :: xs => loop inp out a { x with off := (xs.map String.toInt!).toArray }
+    | "XCHK" :: xs => loop inp out a { x with chk := (xs.map String.toInt!).toArray }
+    | "XADEF" :: xs => loop inp out a { x with adef := (xs.map String.toInt!).toArray }
+    | "XGDEF" :: xs => loop inp out a { x with gdef := (xs.map String.toInt!).toArray }
+    | "XRULE" :: r :: lhs :: tag :: n :: k :: terms =>
+      loop inp out a { x with rules := setRule x.rules r.toNat! { lhs := lhs.toNat!, lhsTag := tag.toNat!, n := n.toNat!, k := k.toInt!, terms := terms.map parseTerm } }
+    | "XTOK" :: xs => loop inp out a { x with tok := (xs.map String.toNat!).toArray }
+    | "XSTART" :: t :: _ => loop inp out a { x with startTag := t.toNat! }
+    | "XINPUT" :: xs => loop inp out a { x with inputs := x.inputs.push ((xs.filter (· ≠ "-")).map String.toNat!).toArray }
+    | "XEND" :: _ => do processX out x; loop inp out a {}
+    | _ => loop inp out a x
+  else
   match ws with
+  | "XCASE" :: id :: _ => loop inp out a { id := id, active := true }
   | "CASE" :: id :: _ => loop inp out { id := id }
   | "REFUSE" :: cls :: _ => loop inp out { a with refuse := some cls }
   | "GRAMMAR" :: n :: t :: _ =>
